@@ -2,6 +2,7 @@ package main
 
 import (
 	"fmt"
+	"regexp"
 	"strings"
 
 	"golang.org/x/tools/go/ssa"
@@ -217,4 +218,71 @@ func (c *Ctx) obMustUnder(what string, f *ssa.Function, labels []string, H ...st
 		d = fmt.Sprintf("under {%s} some path through %s returns without any of %v (feasible exits: %d; events on all such paths: %v)", strings.Join(H, " && "), funcName(f), labels, exits, m.list())
 	}
 	c.R.Ob(funcName(f)+"/"+what+" when "+strings.Join(H, "&&"), c.P.Pos(f.Pos()), ok, d)
+}
+
+// factMatch: does a fact matching the regular expression hold before site
+// (lifted through closures/callees like Guarded)?
+func (c *Ctx) factMatch(site ssa.Instruction, re string) (bool, string) {
+	rx := regexp.MustCompile(re)
+	ff := c.F.Analyze(site.Parent())
+	for a := range ff.At(site) {
+		if rx.MatchString(a) {
+			return true, a
+		}
+	}
+	return false, ""
+}
+
+func (c *Ctx) obFactMatch(what string, site ssa.Instruction, re string, explain string) {
+	ok, _ := c.factMatch(site, re)
+	d := ""
+	if !ok {
+		ff := c.F.Analyze(site.Parent())
+		d = fmt.Sprintf("%s: no fact matching /%s/ holds here; facts: %v", explain, re, ff.At(site).list())
+	}
+	c.R.Ob(c.siteKey(site, what), c.P.InstrPos(site), ok, d)
+}
+
+// deferredAtAllReturns: label is certainly produced (via a registered defer or
+// directly) before every normal return of f.
+func (c *Ctx) mustAtAllReturns(f *ssa.Function, labels ...string) bool {
+	_, s := c.Std()
+	return hasAny(s.Must(f), labels...)
+}
+
+// countLabel computes min/max occurrences of a direct label on entry→return
+// paths of f, following static callees in package smtp (memoised, recursion
+// cut).
+func (c *Ctx) countLabel(f *ssa.Function, isEvent func(ssa.Instruction) bool, skip func(from, to *ssa.BasicBlock) bool, exitOK func(ssa.Instruction) bool, memo map[*ssa.Function]*CountResult) CountResult {
+	if r, ok := memo[f]; ok {
+		if r == nil {
+			return CountResult{}
+		}
+		return *r
+	}
+	memo[f] = nil
+	res := CountPaths(f, func(in ssa.Instruction) (int, int) {
+		lo, hi := 0, 0
+		if isEvent(in) {
+			lo, hi = 1, 1
+		}
+		switch in.(type) {
+		case *ssa.Go, *ssa.Defer:
+			return lo, hi
+		}
+		if cc := callCommon(in); cc != nil {
+			if g := staticCallee(cc); g != nil && inSmtp(g) {
+				r := c.countLabel(g, isEvent, nil, nil, memo)
+				lo += r.Min
+				if r.Max < 0 || hi >= inf/2 {
+					hi = inf
+				} else {
+					hi += r.Max
+				}
+			}
+		}
+		return lo, hi
+	}, skip, exitOK)
+	memo[f] = &res
+	return res
 }
